@@ -85,6 +85,12 @@ let () =
          if s.c_legacy then "legacy blocks=" ^ rle (legacy_layout (zs n))
          else show_layout ((if build = "mt" then mt_layout else st_layout) s (zs fsz) (zs n)))
     | _ -> "badargs");
+  (* bytes <mt|st> <fileSize> <hex content> <arg>... : the file the model predicts when every block is stored raw *)
+  reg "bytes" (function build :: fsz :: content :: args ->
+      (match parse_args cli_init (List.map arg_of args) with
+       | None -> "badusage"
+       | Some s -> show_bytes (cli_bytes_raw (build = "mt") s (zs fsz) [] (buffer_of content)))
+    | _ -> "badargs");
   (* state <arg>... : parsed options *)
   reg "state" (function args ->
       (match parse_args cli_init (List.map arg_of args) with
